@@ -3,10 +3,76 @@
    of environment events of any length, i.e. every position of the signal relative to accept,
    protocol detection, request head, body, handler, response, for any number of connections.
    Hypothesis h2_preface_done: an HTTP/2-only server meets no client that never completes the
-   HTTP/2 preface — that case is the known finding D15 (hyper keeps such a connection open). *)
+   HTTP/2 preface — that case is the known finding D18 (hyper keeps such a connection open).
+   Reading of the counters: m = tracks ms0 a are the monitor's counters over the trace prefix a
+   (server/Spec.v); settled07 / idle_cm are the monitor's own clauses as propositions. *)
 From HD Require Import common.Base server.Model server.Spec server.Proofs.
 
+(* the model's trace satisfies the executable specification, for all event lists *)
 Theorem c07_monitor : forall g evs, h2_preface_done g evs -> mon_C07 (trace (run g evs)) = true.
 Proof. exact model_mon_C07. Qed.
 Check c07_monitor : forall g evs, h2_preface_done g evs -> mon_C07 (trace (run g evs)) = true.
 Print Assumptions c07_monitor.
+
+(* after the signal: the acceptor hands over no further connection, no driver is spawned, the
+   future completes with Ok (()), and it has completed at the first quiescent point *)
+Theorem c07_stops_accepting : forall g evs tr1 tr2,
+  h2_preface_done g evs -> trace (run g evs) = tr1 ++ OSignal :: tr2 ->
+  (forall c, ~ In (OAccept c) tr2) /\ (forall c, ~ In (OSpawn c) tr2)
+  /\ (forall r, In (OServer r) tr2 -> r = true)
+  /\ (forall a b, tr2 = a ++ OQuiet :: b -> exists r, In (OServer r) (tr1 ++ OSignal :: a)).
+Proof. exact c07_stops_accepting_proof. Qed.
+Print Assumptions c07_stops_accepting.
+
+(* graceful_shutdown is called at most once per connection in the whole run; at every quiescent
+   point after the signal every spawned connection (without injected fault) has been told exactly
+   once or its driver has finished *)
+Theorem c07_every_driver_told_once : forall g evs c,
+  h2_preface_done g evs ->
+  length (filter (is_told c) (trace (run g evs))) <= 1
+  /\ forall a b, trace (run g evs) = a ++ OQuiet :: b -> In OSignal a ->
+     c < k_n (tracks ms0 a) -> settled07 (k_conns (tracks ms0 a) c).
+Proof. exact c07_every_driver_told_once_proof. Qed.
+Check c07_every_driver_told_once : forall g evs c,
+  h2_preface_done g evs ->
+  length (filter (is_told c) (trace (run g evs))) <= 1
+  /\ forall a b, trace (run g evs) = a ++ OQuiet :: b -> In OSignal a ->
+     c < k_n (tracks ms0 a) ->
+     let y := k_conns (tracks ms0 a) c in
+     m_spawned y = true -> m_fault y = false ->
+     (m_done y = true \/ m_told y = 1)
+     /\ (m_begun y = m_envdone y -> m_done y = true /\ m_hb y <= m_resp y).
+Print Assumptions c07_every_driver_told_once.
+
+(* in-flight exchanges complete before the close; idle connections serve no further request *)
+Theorem c07_inflight_complete : forall g evs,
+  h2_preface_done g evs ->
+  (forall a b c, trace (run g evs) = a ++ OQuiet :: b -> In OSignal a -> c < k_n (tracks ms0 a) ->
+     settled07 (k_conns (tracks ms0 a) c))
+  /\ (forall tr1 tr2 c, trace (run g evs) = tr1 ++ OSignal :: tr2 -> ~ In OSignal tr1 ->
+        idle_cm (k_conns (tracks ms0 tr1) c) = true -> ~ In (OHandler c) tr2).
+Proof. exact c07_inflight_complete_proof. Qed.
+Print Assumptions c07_inflight_complete.
+
+(* non-vacuity: h1 connection 0 is in its handler, h2 connection 1 is idle keep-alive, client 2 is
+   still queued when the signal fires: 2 is refused, both are told once, 1 closes at once, 0 gets
+   its complete response and closes; the late request on 1 is not served *)
+Example c07_example :
+  let g := mkCfg true PAuto in
+  let evs := [EConnect KH1; EConnect KH2; EReq 0; EStep 0; EReq 1; EStep 1; EStep 1; EStep 1;
+              EConnect KH1; ESignal; ESettle; EStep 0; EStep 0; EReq 1; ESettle] in
+  h2_preface_done g evs
+  /\ trace (run g evs)
+     = [OConnect 0; OConnect 1; OAccept 0; OSpawn 0; OAccept 1; OSpawn 1; OBegin 0; OHandler 0; OQuiet; OQuiet;
+        OBegin 1; OHandler 1; OQuiet; OQuiet; OQuiet; OEnvDone 1; OResp 1; OQuiet; OConnect 2; OSignal;
+        OServer true; ORefused 2; OTold 0; OTold 1; ODone 1; OQuiet; OQuiet; OEnvDone 0; OResp 0;
+        ODone 0; OQuiet; OQuiet; OQuiet].
+Proof.
+  cbv zeta. split; [| vm_compute; reflexivity].
+  unfold h2_preface_done. repeat constructor; cbn; discriminate.
+Qed.
+
+(* the hypothesis is needed: D18 in the model *)
+Example c07_d15 :
+  mon_C07 (trace (run (mkCfg true PH2) [EConnect KRaw; ESettle; ESignal; ESettle])) = false.
+Proof. vm_compute. reflexivity. Qed.
